@@ -156,6 +156,7 @@ def check_property(prop, tier, seconds, max_plans, workers):
             stats["ops"] += info["ops"]
             stats["evals"] += info["evals"]
             stats["hangs"] += info["hangs"]
+            stats["clock_ticks"] = stats.get("clock_ticks", 0) + info.get("clock_ticks", 0)
             for key in sorted(info["probes"]):
                 stats["probes"][key] = stats["probes"].get(key, 0) + info["probes"][key]
             for key in sorted(info["stats"]):
@@ -254,8 +255,14 @@ def check_property(prop, tier, seconds, max_plans, workers):
             "runs": stats["plans"], "segments": stats["segments"], "operations": stats["ops"],
             "runs_per_hour": int(stats["plans"] * 3600 / max(wall, 1e-6)),
             "seeds_per_hour": int(stats["plans"] * 3600 / max(wall, 1e-6)),
-            "simulated_time": "not applicable: the system has no clock, timer or deadline; "
-                              "progress is counted in logical steps (operations)",
+            "simulated_time": {
+                "note": "the library has no clock, timer or deadline; the only time in the system "
+                        "is the modification time of files, which comes from the simulator's "
+                        "clock (one tick per file written: +2 s in 'mono' runs, standing still "
+                        "in 'frozen' runs, -10 s in 'backwards' runs); progress is otherwise "
+                        "counted in logical steps (operations)",
+                "clock_ticks": stats.get("clock_ticks", 0),
+                "simulated_seconds_mono_equivalent": 2 * stats.get("clock_ticks", 0)},
             "faults_fired": fault_fired,
             "probes": stats["probes"],
             "disk": stats["disk"],
